@@ -99,7 +99,7 @@ fn parse(text: &str, allow_substvar: bool) -> Parse {
                     Some(IDENT) | Some(COLON) => {
                         self.bump();
                     }
-                    Some(R_CURLY) => {
+                    Some(R_CURLY) | None => {
                         break;
                     }
                     e => {
